@@ -151,32 +151,34 @@ func (a *Array) AsFloat() ([]float64, error) {
 	}
 	dst := make([]float64, 0, lenEst)
 
+	// Iterate over a local offset: the accessor must leave the array usable for later calls.
+	off := a.off
 readArray:
 	for {
-		tag := Tag(a.tape.Tape[a.off] >> 56)
-		a.off++
+		tag := Tag(a.tape.Tape[off] >> 56)
+		off++
 		switch tag {
 		case TagFloat:
-			if len(a.tape.Tape) <= a.off {
+			if len(a.tape.Tape) <= off {
 				return nil, errors.New("corrupt input: expected float, but no more values")
 			}
-			dst = append(dst, math.Float64frombits(a.tape.Tape[a.off]))
+			dst = append(dst, math.Float64frombits(a.tape.Tape[off]))
 		case TagInteger:
-			if len(a.tape.Tape) <= a.off {
+			if len(a.tape.Tape) <= off {
 				return nil, errors.New("corrupt input: expected integer, but no more values")
 			}
-			dst = append(dst, float64(int64(a.tape.Tape[a.off])))
+			dst = append(dst, float64(int64(a.tape.Tape[off])))
 		case TagUint:
-			if len(a.tape.Tape) <= a.off {
+			if len(a.tape.Tape) <= off {
 				return nil, errors.New("corrupt input: expected integer, but no more values")
 			}
-			dst = append(dst, float64(a.tape.Tape[a.off]))
+			dst = append(dst, float64(a.tape.Tape[off]))
 		case TagArrayEnd:
 			break readArray
 		default:
 			return nil, fmt.Errorf("unable to convert type %v to float", tag)
 		}
-		a.off++
+		off++
 	}
 	return dst, nil
 }
@@ -190,16 +192,18 @@ func (a *Array) AsInteger() ([]int64, error) {
 		lenEst = 0
 	}
 	dst := make([]int64, 0, lenEst)
+	// Iterate over a local offset: the accessor must leave the array usable for later calls.
+	off := a.off
 readArray:
 	for {
-		tag := Tag(a.tape.Tape[a.off] >> 56)
-		a.off++
+		tag := Tag(a.tape.Tape[off] >> 56)
+		off++
 		switch tag {
 		case TagFloat:
-			if len(a.tape.Tape) <= a.off {
+			if len(a.tape.Tape) <= off {
 				return nil, errors.New("corrupt input: expected float, but no more values")
 			}
-			val := math.Float64frombits(a.tape.Tape[a.off])
+			val := math.Float64frombits(a.tape.Tape[off])
 			if math.IsNaN(val) {
 				return nil, errors.New("float value is NaN. cannot convert to int64")
 			}
@@ -211,16 +215,16 @@ readArray:
 			}
 			dst = append(dst, int64(val))
 		case TagInteger:
-			if len(a.tape.Tape) <= a.off {
+			if len(a.tape.Tape) <= off {
 				return nil, errors.New("corrupt input: expected integer, but no more values")
 			}
-			dst = append(dst, int64(a.tape.Tape[a.off]))
+			dst = append(dst, int64(a.tape.Tape[off]))
 		case TagUint:
-			if len(a.tape.Tape) <= a.off {
+			if len(a.tape.Tape) <= off {
 				return nil, errors.New("corrupt input: expected integer, but no more values")
 			}
 
-			val := a.tape.Tape[a.off]
+			val := a.tape.Tape[off]
 			if val > math.MaxInt64 {
 				return nil, errors.New("unsigned integer value overflows int64")
 			}
@@ -230,7 +234,7 @@ readArray:
 		default:
 			return nil, fmt.Errorf("unable to convert type %v to integer", tag)
 		}
-		a.off++
+		off++
 	}
 	return dst, nil
 }
@@ -244,16 +248,18 @@ func (a *Array) AsUint64() ([]uint64, error) {
 		lenEst = 0
 	}
 	dst := make([]uint64, 0, lenEst)
+	// Iterate over a local offset: the accessor must leave the array usable for later calls.
+	off := a.off
 readArray:
 	for {
-		tag := Tag(a.tape.Tape[a.off] >> 56)
-		a.off++
+		tag := Tag(a.tape.Tape[off] >> 56)
+		off++
 		switch tag {
 		case TagFloat:
-			if len(a.tape.Tape) <= a.off {
+			if len(a.tape.Tape) <= off {
 				return nil, errors.New("corrupt input: expected float, but no more values")
 			}
-			val := math.Float64frombits(a.tape.Tape[a.off])
+			val := math.Float64frombits(a.tape.Tape[off])
 			if math.IsNaN(val) {
 				return nil, errors.New("float value is NaN. cannot convert to uint64")
 			}
@@ -265,26 +271,26 @@ readArray:
 			}
 			dst = append(dst, uint64(val))
 		case TagInteger:
-			if len(a.tape.Tape) <= a.off {
+			if len(a.tape.Tape) <= off {
 				return nil, errors.New("corrupt input: expected integer, but no more values")
 			}
-			val := int64(a.tape.Tape[a.off])
+			val := int64(a.tape.Tape[off])
 			if val < 0 {
 				return nil, errors.New("int64 value is negative")
 			}
 			dst = append(dst, uint64(val))
 		case TagUint:
-			if len(a.tape.Tape) <= a.off {
+			if len(a.tape.Tape) <= off {
 				return nil, errors.New("corrupt input: expected integer, but no more values")
 			}
 
-			dst = append(dst, a.tape.Tape[a.off])
+			dst = append(dst, a.tape.Tape[off])
 		case TagArrayEnd:
 			break readArray
 		default:
 			return nil, fmt.Errorf("unable to convert type %v to integer", tag)
 		}
-		a.off++
+		off++
 	}
 	return dst, nil
 }
